@@ -90,8 +90,8 @@ impl Prop for Sched {
     }
     fn cases(tier: Tier) -> u32 {
         match tier {
-            Tier::Quick => 30_000,
-            Tier::Thorough => 2_000_000,
+            Tier::Quick => 150_000,
+            Tier::Thorough => 6_000_000,
         }
     }
     fn floors() -> Vec<(&'static str, u32)> {
